@@ -32,9 +32,9 @@ W = {
 }
 TIERS = {
     'quick': {'runs': 8000, 'budget_s': 150, 'leaf_cap': 250, 'max_ops': 120,
-              'weights': W},
+              'weights': W, 'p_seam': 0.12},
     'thorough': {'runs': 120000, 'budget_s': 1500, 'leaf_cap': 500,
-                 'max_ops': 200, 'weights': W},
+                 'max_ops': 200, 'weights': W, 'p_seam': 0.12},
 }
 MODE = {
     'compare': True,
